@@ -265,6 +265,18 @@ theorem C10_reachable_resize {v v' : Vt} {c r : Nat} {ch : Changes} (h : Reach v
       (C10.cursorOf v'.terminal).1 (C10.cursorOf v'.terminal).2 v.terminal.pendingWrap = true :=
   C10.C10_resize v v' c r ch (C02_reach h) hc hr hp hl hs
 
+/-- **C10, the wrap-pending cursor**, from reachable states: a wrap-pending cursor whose logical
+    offset names a character of the text keeps that offset; a width change puts it on that character,
+    a height-only change keeps the character unless the line was cut at the cursor -/
+theorem C10_reachable_pending_place {v v' : Vt} {c r : Nat} {ch : Changes} (h : Reach v) (hc : 1 ≤ c)
+    (hr : 1 ≤ r) (hp : v.terminal.activeBufferType = .primary) (hl : v.terminal.scrollbackLimit = none)
+    (hs : v.resize c r = some (v', ch)) :
+    Avt.Spec.C10.pendingPlaceRel (Avt.Spec.C10.logicalLines v.terminal.buffer.lines)
+      (Avt.Spec.C10.logicalLines v'.terminal.buffer.lines)
+      (C10.cursorOf v.terminal).1 (C10.cursorOf v.terminal).2 (C10.cursorOf v'.terminal).2
+      v.terminal.pendingWrap (v'.terminal.buffer.cols != v.terminal.buffer.cols) = true :=
+  C10.C10_pending_place v v' c r ch (C02_reach h) hc hr hp hl hs
+
 /-! ### `Reach` is inhabited by a non-trivial state
 
   a 3x2 terminal with scrollback limit 10: `feed_str("abcd")` (wraps onto the second row), then
